@@ -1040,8 +1040,8 @@ static Str opSockio(const Toks& t)
 			int ret = s.read(buf, size);
 			out = str(ret) + " " + digest(buf, (size_t)(ret > 0 ? ret : 0)) + " " + (s.error() ? "1" : "0");
 			free(buf);
-			pthread_join(th, 0);
-		}
+		} // closes fds[0]: a peer still sending the bytes beyond `size` gets EPIPE and ends
+		pthread_join(th, 0);
 	}
 	close(fds[1]);
 	return out;
